@@ -20,6 +20,7 @@ For every generated value x of the twelve pyvizier wire types:
                                         every proto the library itself produced
 """
 import json
+import os
 import math
 
 from vv import c09_lib as L
@@ -74,7 +75,7 @@ KINDS = ['ParameterConfig', 'MetricInformation', 'StudyConfig', 'ProblemStatemen
          'Measurement', 'Trial', 'TrialSuggestion', 'MetadataDelta', 'SuggestRequest',
          'SuggestDecision', 'EarlyStopRequest', 'EarlyStopDecisions']
 SERVICE = ['Service:study', 'Service:trial-created', 'Service:trial-lifecycle']
-REQUIRED_COUNTERS = (['roundtrips:' + k for k in KINDS]
+REQUIRED_COUNTERS = (['shards_under_non_utc_time_zone'] + ['roundtrips:' + k for k in KINDS]
                      + ['reconversions_compared', 'wire_reparse_compared',
                         'service_readbacks:study', 'service_readbacks:trial-created',
                         'service_readbacks:trial-lifecycle',
@@ -580,12 +581,35 @@ def run_one(ctx, svc, kind, desc, index):
     check_value(ctx, kind, desc, index)
 
 
+TIME_ZONES = ['UTC', 'JST-9', 'PST8', 'CET-1CEST,M3.5.0,M10.5.0/3', 'UTC', 'NPT-5:45']
+
+
+def set_time_zone(tz):
+  import time
+  os.environ['TZ'] = tz
+  time.tzset()
+
+
 def run_shard(ctx):
   import logging
   from absl import logging as absl_logging
   absl_logging.set_verbosity(absl_logging.ERROR)
   logging.getLogger().setLevel(logging.ERROR)
   n_cases = 60000 if ctx.tier == 'quick' else 3000000
+  # the process time zone is part of the environment a conversion runs in: shards run
+  # under different zones (POSIX TZ strings, no tzdata needed), incl. one with DST rules
+  tz = TIME_ZONES[(ctx.shard + ctx.seed) % len(TIME_ZONES)]
+  set_time_zone(tz)
+  raw_violation = ctx.violation
+
+  def violation_with_tz(mech, what, case, witness=None):
+    if isinstance(case, dict):
+      case = dict(case, tz=tz)
+    raw_violation(mech, f'[TZ={tz}] {what}', case, witness)
+  ctx.violation = violation_with_tz
+  ctx.count('shards_under_time_zone:' + tz)
+  if tz != 'UTC':
+    ctx.count('shards_under_non_utc_time_zone')
   if ctx.tier == 'thorough':
     L.CFG.update({'max_params': 8, 'depths_hostile': [0, 1, 1, 2, 3, 4],
                   'depths_clean': [0, 0, 1, 1], 'max_md': 9, 'max_measurements': 6})
@@ -614,5 +638,6 @@ def replay(ctx, case):
   absl_logging.set_verbosity(absl_logging.ERROR)
   logging.getLogger().setLevel(logging.ERROR)
   kind = case['kind']
+  set_time_zone(case.get('tz', 'UTC'))
   svc = Service(ctx) if kind.startswith('Service:') else None
   run_one(ctx, svc, kind, case.get('desc'), case.get('index', 0))
